@@ -140,6 +140,8 @@ class Walker:
         ili = ss.ili
         if ili is not None and ili.status == 'proposed':
             d['ili_meta'] = ili.metadata() or None
+        elif ili is not None:
+            d['ili_inv_meta'] = ili.metadata() or None      # shared ILI inventory: set by whoever introduced the ILI
         try:
             d['words'] = [self.k(w, 'Synset.words') for w in ss.words()]
             d['lemmas'] = [str(x) for x in ss.lemmas()]
